@@ -129,6 +129,11 @@ func (s *Service) Aggregate(ctx context.Context, duty *attestationaggregator.Dut
 		return
 	}
 	aggregateAttestation := aggregateAttestationResponse.Data
+	if aggregateAttestation == nil || aggregateAttestation.Data == nil {
+		log.Error().Msg("Obtained empty aggregate attestation")
+		monitorAttestationAggregationCompleted(started, duty.Slot, "failed", startOfSlot)
+		return
+	}
 
 	log.Trace().Dur("elapsed", time.Since(started)).Msg("Obtained aggregate attestation")
 
